@@ -4,6 +4,7 @@ import (
 	"fmt"
 	"go/types"
 	"sort"
+	"strings"
 
 	"golang.org/x/tools/go/ssa"
 
@@ -266,6 +267,8 @@ type Rules struct {
 	Prefix string
 	byCls  map[string]*report.Rule
 	run    *report.Run
+	groups map[string]*failGroup
+	order  []string
 }
 
 // RuleID returns the rule id of a class.
@@ -274,7 +277,7 @@ func RuleID(prefix, class string) string { return prefix + "/" + class }
 // NewRules declares (or fetches) the rules prefix/class.  expectedMin gives
 // the per-class vacuity threshold used when the rule is not declared yet.
 func NewRules(run *report.Run, prefix string, classes []string, expectedMin map[string]int) *Rules {
-	r := &Rules{Prefix: prefix, byCls: map[string]*report.Rule{}, run: run}
+	r := &Rules{Prefix: prefix, byCls: map[string]*report.Rule{}, run: run, groups: map[string]*failGroup{}}
 	for _, c := range classes {
 		r.byCls[c] = run.Rule(RuleID(prefix, c), ClassDesc[c], expectedMin[c])
 	}
@@ -299,27 +302,77 @@ func init() {
 }
 
 // ReportResult records the obligations of one analysed entry point.
+// Discharged obligations are recorded at once; violated ones are grouped by
+// (class, function, position, expression) over all entry points and emitted
+// by Flush, so that one broken instruction inlined into several primitives
+// is one violation naming all of them.
 func (r *Rules) ReportResult(res *FuncResult) {
 	for _, o := range res.Obligations {
-		ru := r.Rule(o.Class)
-		if o.Failed() {
-			ru.Fail(o.Pos, o.Func, fmt.Sprintf("%s: `%s` = %s violates \"%s\" when %s is analysed under its pre-condition: %s",
-				o.Pos, o.Expr, o.itvString(), o.What, o.Entry, o.Fails[0]), o.Summary())
-		} else {
-			ru.OK(o.Entry + " :: " + o.Pos + " " + o.Expr)
+		if !o.Failed() {
+			r.Rule(o.Class).OK(o.Entry + " :: " + o.Pos + " " + o.Expr)
+			continue
 		}
+		key := o.Class + "|" + o.Func + "|" + o.Pos + "|" + o.Expr
+		g := r.groups[key]
+		if g == nil {
+			g = &failGroup{first: o}
+			r.groups[key] = g
+			r.order = append(r.order, key)
+		}
+		g.all = append(g.all, o)
 	}
 	ru := r.Rule(ClsComplete)
 	if len(res.Undecided) > 0 {
 		for _, u := range res.Undecided {
-			ru.Fail(r.fnPos(res), load.FuncName(res.Fn), "UNDECIDED while analysing "+res.Label+": "+u, nil)
+			ru.Fail("-", load.FuncName(res.Fn), "UNDECIDED while analysing "+res.Label+": "+u, nil)
 		}
 	} else {
 		ru.OK(res.Label)
 	}
 }
 
-func (r *Rules) fnPos(res *FuncResult) string { return "-" }
+type failGroup struct {
+	first *Obligation
+	all   []*Obligation
+}
+
+// Flush emits the grouped violations collected by ReportResult.
+func (r *Rules) Flush() {
+	for _, key := range r.order {
+		g := r.groups[key]
+		o := g.first
+		under := o.Entry
+		if len(g.all) > 1 {
+			var others []string
+			seen := map[string]bool{o.Entry: true}
+			for _, x := range g.all[1:] {
+				if !seen[x.Entry] {
+					seen[x.Entry] = true
+					others = append(others, x.Entry)
+				}
+			}
+			if len(others) > 6 {
+				others = append(others[:6], fmt.Sprintf("... %d more", len(others)-6))
+			}
+			if len(others) > 0 {
+				under += " (and likewise under " + strings.Join(others, ", ") + ")"
+			}
+		}
+		details := make([]map[string]any, 0, len(g.all))
+		for _, x := range g.all {
+			details = append(details, x.Summary())
+		}
+		ru := r.Rule(o.Class)
+		ru.Fail(o.Pos, o.Func, fmt.Sprintf("%s: `%s` = %s violates \"%s\" when %s is analysed under its pre-condition: %s",
+			o.Pos, o.Expr, o.itvString(), o.What, under, o.Fails[0]), details)
+		// the remaining members of the group are instances of the rule too
+		for range g.all[1:] {
+			ru.Fail(o.Pos, o.Func, fmt.Sprintf("%s: `%s` = %s violates \"%s\" when %s is analysed under its pre-condition: %s",
+				o.Pos, o.Expr, o.itvString(), o.What, under, o.Fails[0]), details)
+		}
+	}
+	r.groups, r.order = map[string]*failGroup{}, nil
+}
 
 // Stats summarises the obligations of a result.
 type Stats struct {
